@@ -156,7 +156,9 @@ def main():
                 dst, msg = sym_bytes('dst', dstlen), sym_bytes('msg', msglen)
                 outb = [0xEE] * outlen
                 out = m.new_byte_slice(outb, 'out') if outlen else X.NILSLICE
-                err = m.call(H2C + 'expandMessageXMD', [out, 5, m.new_byte_slice(dst, 'dst') if dstlen else X.NILSLICE, m.new_byte_slice(msg, 'msg') if msglen else X.NILSLICE])
+                dst_s = m.new_byte_slice(dst, 'dst') if dstlen else X.NILSLICE
+                msg_s = m.new_byte_slice(msg, 'msg') if msglen else X.NILSLICE
+                err = m.call(H2C + 'expandMessageXMD', [out, 5, dst_s, msg_s])
                 sub.note_machine(m)
                 spec = xmd_spec(msg, dst, outlen)
                 if err is not None:
@@ -167,7 +169,9 @@ def main():
                     got = m.slice_elems(out)
                     ctx.check(tm.eq(cat_bytes(got), cat_bytes(spec), 8 * outlen), 'bv:uniform_bytes=RFC9380-5.3.1')
                 if dstlen:
-                    ctx.check(tm.eq(cat_bytes(m.slice_elems(m.new_byte_slice(dst))), cat_bytes(dst), 8 * dstlen), 'dst-unchanged')
+                    ctx.check(tm.eq(cat_bytes(m.slice_elems(dst_s)), cat_bytes(dst), 8 * dstlen), "bv:caller's-DST-buffer-unchanged")
+                if msglen:
+                    ctx.check(tm.eq(cat_bytes(m.slice_elems(msg_s)), cat_bytes(msg), 8 * msglen), "bv:caller's-message-buffer-unchanged")
                 return 'ok'
             sub.explore('xmd@out%d@dst%d@msg%d' % (outlen, dstlen, msglen), h, mode='bv')
         return task
@@ -331,7 +335,10 @@ def main():
                     return a[0]
                 m.contracts[PT + 'Add'] = c_add
                 dst, msg = sym_bytes('dst', dstlen), sym_bytes('msg', msglen)
-                r, err = m.call(H2C + fn, [m.new_byte_slice(dst, 'dst') if dstlen else X.NILSLICE, m.new_byte_slice(msg, 'msg') if msglen else X.NILSLICE])
+                dst_s = m.new_byte_slice(dst, 'dst') if dstlen else X.NILSLICE
+                r, err = m.call(H2C + fn, [dst_s, m.new_byte_slice(msg, 'msg') if msglen else X.NILSLICE])
+                if dstlen:
+                    ctx.check(tm.eq(cat_bytes(m.slice_elems(dst_s)), cat_bytes(dst), 8 * dstlen), "bv:caller's-DST-buffer-unchanged")
                 sub.note_machine(m)
                 n = 96 if fn.endswith('RO') else 48
                 spec = xmd_spec(msg, dst, n)
